@@ -1,7 +1,241 @@
-import NetaddrVerif.Model.Codec
-namespace NV.C15
-open NV.Codec
+/-
+Props/C15.lean — property C15: binary, bit, word, DNS and base-85 encodings are faithful and
+invertible.  Property theorems only; helper lemmas are in Lemmas/C15L*.lean.
 
-theorem placeholder : wordsLoop 8 0 5 = [] := rfl
+Cross-reading of properties.jsonl: "packed / bytes() is the big-endian byte string of the
+family's width" = `*_intToPacked_spec`, `toBytes_spec` (+ `beBytes_length`, `beValue_beBytes`);
+"bits() and bin are the zero-padded and 0b binary spellings" = `intToBits_spec`, `intToBin_spec`;
+"words is the big-endian word tuple" = `intToWords_spec`; "reverse_dns …" = `arpa4_spec`,
+`arpa6_spec`; "base-85 is the 20-character base-85 numeral" = `base85_spec`; "decoders return
+the original value for every encoder output" = `*_roundtrip`; "and raise on input of the wrong
+length, with a word or value out of range, or with a digit outside the numeral's base" =
+`wordsToInt_spec`, `*_packedToInt_spec`, `bitsToInt_reject`, `binToInt_reject`, `base85_reject`.
+-/
+import NetaddrVerif.Lemmas.C15LBytes
+namespace NV.C15
+open NV NV.Codec
+
+/-! ## words -/
+
+/-- `int_to_words`: in range, the tuple has `nw` words below 2^ws whose big-endian value is v;
+    out of range it raises IndexError. -/
+theorem intToWords_spec (v ws nw : Nat) :
+    (v < 2 ^ (nw * ws) → ∃ words, intToWords v ws nw = .ok words ∧ words.length = nw ∧
+        (∀ x ∈ words, x < 2 ^ ws) ∧ beWordsValue ws words = v) ∧
+    (¬ v < 2 ^ (nw * ws) → intToWords v ws nw = .error .index) := by
+  have hp := pow_pos2 (nw * ws)
+  constructor
+  · intro hv
+    refine ⟨(wordsLoop ws nw v).reverse, ?_, by simp [wordsLoop_length], ?_, ?_⟩
+    · simp only [intToWords]; rw [if_pos (by omega)]
+    · intro x hx; exact wordsLoop_lt ws nw v x (by simpa using hx)
+    · simp only [beWordsValue, List.reverse_reverse, leValue_wordsLoop]
+      rw [Nat.mul_comm]; exact Nat.mod_eq_of_lt hv
+  · intro hv
+    simp only [intToWords]; rw [if_neg (by omega)]
+
+example : intToWords 0x001b774954fd 16 3 = .ok [0x001b, 0x7749, 0x54fd] := by rfl
+example : intToWords (2 ^ 48) 16 3 = .error .index := by rfl
+
+/-- `words_to_int`: exactly the sequences of `nw` words below 2^ws are accepted, with their
+    big-endian value; every other sequence (wrong count, a word ≥ 2^ws) raises ValueError. -/
+theorem wordsToInt_spec (words : List Nat) (ws nw : Nat) :
+    (words.length = nw ∧ (∀ x ∈ words, x < 2 ^ ws) → wordsToInt words ws nw = .ok (beWordsValue ws words)) ∧
+    (¬ (words.length = nw ∧ ∀ x ∈ words, x < 2 ^ ws) → wordsToInt words ws nw = .error .value) := by
+  constructor
+  · intro h
+    simp only [wordsToInt, (validWords_iff words ws nw).mpr h, if_true, beWordsValue]
+    rw [orShift_zero _ _ (fun x hx => h.2 x (by simpa using hx))]
+  · intro h
+    have : validWords words ws nw = false := by
+      cases hv : validWords words ws nw with
+      | false => rfl
+      | true => exact absurd ((validWords_iff words ws nw).mp hv) h
+    simp [wordsToInt, this]
+
+example : wordsToInt [0x001b, 0x7749, 0x54fd] 16 3 = .ok 0x001b774954fd := by rfl
+example : wordsToInt [0x10000, 0, 0] 16 3 = .error .value := by rfl
+example : wordsToInt [0, 0] 16 3 = .error .value := by rfl
+
+/-- decoder ∘ encoder = id for every word size and word count -/
+theorem words_roundtrip (v ws nw : Nat) (hv : v < 2 ^ (nw * ws)) :
+    ∃ words, intToWords v ws nw = .ok words ∧ wordsToInt words ws nw = .ok v := by
+  obtain ⟨words, h1, h2, h3, h4⟩ := (intToWords_spec v ws nw).1 hv
+  exact ⟨words, h1, by rw [((wordsToInt_spec words ws nw).1 ⟨h2, h3⟩), h4]⟩
+
+/-- a word equal to 2^ws (or larger) anywhere in the sequence is rejected -/
+theorem wordsToInt_rejects_big_word (words : List Nat) (ws nw x : Nat) (hx : x ∈ words) (hbig : 2 ^ ws ≤ x) :
+    wordsToInt words ws nw = .error .value :=
+  (wordsToInt_spec words ws nw).2 (fun h => by have := h.2 x hx; omega)
+
+private theorem and255 (x : Nat) : x &&& 0xff = x % 256 := Nat.and_two_pow_sub_one_eq_mod x 8
+
+/-- `ipv4.int_to_words` (its own spelling) is the generic codec with 4 words of 8 bits; out of
+    range it raises (ValueError instead of IndexError) -/
+theorem v4_intToWords_eq (v : Nat) :
+    (v < 2 ^ 32 → V4.intToWords v = intToWords v 8 4) ∧ (¬ v < 2 ^ 32 → V4.intToWords v = .error .value) := by
+  constructor
+  · intro hv
+    have h1 : v ≤ 2 ^ 32 - 1 := by omega
+    have h2 : v ≤ 2 ^ (4 * 8) - 1 := by omega
+    simp only [V4.intToWords, intToWords, if_pos h1, wordsLoop, List.reverse_cons, List.reverse_nil,
+      List.nil_append, List.cons_append, and255, Nat.shiftRight_eq_div_pow, Nat.and_two_pow_sub_one_eq_mod]
+    have e : v / 2 ^ 8 / 2 ^ 8 / 2 ^ 8 % 2 ^ 8 = v / 2 ^ 24 := by omega
+    have e2 : v / 2 ^ 8 / 2 ^ 8 % 2 ^ 8 = v / 2 ^ 16 % 256 := by omega
+    have e3 : v / 2 ^ 8 % 2 ^ 8 = v / 2 ^ 8 % 256 := by omega
+    have e4 : v % 2 ^ 8 = v % 256 := by omega
+    rw [e, e2, e3, e4]
+  · intro hv
+    simp only [V4.intToWords]; rw [if_neg (by omega)]
+
+/-- `ipv4.words_to_int` (through struct.pack('4B') / unpack('>I')): same acceptance and value
+    as the generic codec -/
+theorem v4_wordsToInt_spec (words : List Nat) :
+    (words.length = 4 ∧ (∀ x ∈ words, x < 2 ^ 8) → V4.wordsToInt words = .ok (beWordsValue 8 words)) ∧
+    (¬ (words.length = 4 ∧ ∀ x ∈ words, x < 2 ^ 8) → V4.wordsToInt words = .error .value) := by
+  constructor
+  · rintro ⟨hl, hx⟩
+    have hv : validWords words Gen.ipv4WordSize Gen.ipv4NumWords = true :=
+      (validWords_iff words 8 4).mpr ⟨hl, hx⟩
+    match words, hl with
+    | [a, b, c, d], _ =>
+      have ha := hx a (by simp); have hb := hx b (by simp); have hc := hx c (by simp); have hd := hx d (by simp)
+      have p : ∀ x, x < 2 ^ 8 → packField 1 x = .ok [x] := by
+        intro x h
+        have h' : x < 256 ^ 1 := by omega
+        simp only [packField, if_pos h', beBytes, leBytes, List.reverse_cons, List.reverse_nil, List.nil_append]
+        rw [Nat.mod_eq_of_lt (by omega)]
+      simp only [V4.wordsToInt, hv, Bool.not_true, Bool.false_eq_true, if_false, packFields, List.mapM_cons,
+        List.mapM_nil, p a ha, p b hb, p c hc, p d hd]
+      simp [unpackFields, chunks, beValue, beWordsValue, leValue, bind, Except.bind, pure, Except.pure]
+      omega
+  · intro h
+    have : validWords words Gen.ipv4WordSize Gen.ipv4NumWords = false := by
+      cases hv : validWords words Gen.ipv4WordSize Gen.ipv4NumWords with
+      | false => rfl
+      | true => exact absurd ((validWords_iff words 8 4).mp hv) h
+    simp [V4.wordsToInt, this]
+
+example : V4.wordsToInt [192, 0, 2, 1] = .ok 0xC0000201 := by rfl
+example : V4.wordsToInt [256, 0, 2, 1] = .error .value := by rfl
+
+/-! ## packed / bytes() -/
+
+/-- n big-endian bytes of v: n of them, each a byte, with value v -/
+theorem beBytes_shape (n v : Nat) (hv : v < 2 ^ (8 * n)) :
+    (beBytes n v).length = n ∧ (∀ b ∈ beBytes n v, b < 256) ∧ beValue (beBytes n v) = v :=
+  ⟨beBytes_length n v, beBytes_lt n v, by rw [beValue_beBytes, Nat.mod_eq_of_lt hv]⟩
+
+/-- `IPAddress.__bytes__`: `int.to_bytes(width // 8, 'big')` -/
+theorem toBytes_spec (n v : Nat) :
+    (v < 2 ^ (8 * n) → toBytes n v = .ok (beBytes n v)) ∧ (¬ v < 2 ^ (8 * n) → toBytes n v = .error .other) := by
+  have e : (256 : Nat) ^ n = 2 ^ (8 * n) := by rw [Nat.pow_mul]
+  simp only [toBytes, e]
+  constructor <;> intro h <;> simp [h]
+
+theorem v4_intToPacked_spec (v : Nat) :
+    (v < 2 ^ 32 → V4.intToPacked v = .ok (beBytes 4 v)) ∧ (¬ v < 2 ^ 32 → ∃ e, V4.intToPacked v = .error e) := by
+  simp only [V4.intToPacked, packField]
+  constructor <;> intro h
+  · rw [if_pos (by omega)]
+  · exact ⟨.other, by rw [if_neg (by omega)]⟩
+
+private theorem packFields_words (k nw v : Nat) :
+    packFields k (wordsLoop (8 * k) nw v).reverse = .ok (beBytes (k * nw) v) := by
+  have e : (256 : Nat) ^ k = 2 ^ (8 * k) := by rw [Nat.pow_mul]
+  have hm := mapM_ok (packField k) (beBytes k) (wordsLoop (8 * k) nw v).reverse (by
+    intro x hx
+    have := wordsLoop_lt (8 * k) nw v x (by simpa using hx)
+    simp only [packField, e, if_pos this])
+  simp only [packFields, hm]
+  show Except.ok _ = _
+  rw [flatten_beBytes_words]
+
+theorem v6_intToPacked_spec (v : Nat) :
+    (v < 2 ^ 128 → V6.intToPacked v = .ok (beBytes 16 v)) ∧ (¬ v < 2 ^ 128 → ∃ e, V6.intToPacked v = .error e) := by
+  constructor <;> intro h
+  · have h2 : v ≤ 2 ^ (4 * 32) - 1 := by omega
+    simp only [V6.intToPacked, intToWords, if_pos h2]
+    exact packFields_words 4 4 v
+  · have h2 : ¬ v ≤ 2 ^ (4 * 32) - 1 := by omega
+    exact ⟨.index, by simp only [V6.intToPacked, intToWords, if_neg h2]; rfl⟩
+
+theorem e48_intToPacked_spec (v : Nat) :
+    (v < 2 ^ 48 → E48.intToPacked v = .ok (beBytes 6 v)) ∧ (¬ v < 2 ^ 48 → ∃ e, E48.intToPacked v = .error e) := by
+  have e1 : v >>> 32 = v / 2 ^ (8 * 4) := Nat.shiftRight_eq_div_pow v 32
+  have e2 : v &&& 0xffffffff = v % 2 ^ (8 * 4) := Nat.and_two_pow_sub_one_eq_mod v 32
+  constructor <;> intro h
+  · have h1 : v / 2 ^ (8 * 4) < 256 ^ 2 := by omega
+    have h2 : v % 2 ^ (8 * 4) < 256 ^ 4 := by omega
+    simp only [E48.intToPacked, e1, e2, packField, if_pos h1, if_pos h2]
+    show Except.ok _ = _
+    rw [beBytes_mod, ← beBytes_add]
+  · have h1 : ¬ v / 2 ^ (8 * 4) < 256 ^ 2 := by omega
+    exact ⟨.other, by simp only [E48.intToPacked, e1, packField, if_neg h1]; rfl⟩
+
+theorem e64_intToPacked_spec (v : Nat) :
+    (v < 2 ^ 64 → E64.intToPacked v = .ok (beBytes 8 v)) ∧ (¬ v < 2 ^ 64 → ∃ e, E64.intToPacked v = .error e) := by
+  have hw : Gen.eui64Default.wordSize = 8 * 1 := rfl
+  have hn : Gen.eui64Default.numWords = 8 := rfl
+  constructor <;> intro h
+  · have h2 : v ≤ 2 ^ (8 * (8 * 1)) - 1 := by omega
+    simp only [E64.intToPacked, hw, hn, intToWords, if_pos h2]
+    exact packFields_words 1 8 v
+  · have h2 : ¬ v ≤ 2 ^ (8 * (8 * 1)) - 1 := by omega
+    exact ⟨.index, by simp only [E64.intToPacked, hw, hn, intToWords, if_neg h2]; rfl⟩
+
+example : E48.intToPacked 0x001b774954fd = .ok [0x00, 0x1b, 0x77, 0x49, 0x54, 0xfd] := by rfl
+
+/-- `packed_to_int` of every family: exactly the byte strings of the family's byte count are
+    accepted, with their big-endian value; any other length raises (struct.error). -/
+theorem v4_packedToInt_spec (bs : List Nat) :
+    (bs.length = 4 → V4.packedToInt bs = .ok (beValue bs)) ∧ (bs.length ≠ 4 → V4.packedToInt bs = .error .other) := by
+  constructor <;> intro h
+  · simp only [V4.packedToInt, unpackFields, h, chunks]
+    simp [bind, Except.bind, pure, Except.pure, List.take_of_length_le (Nat.le_of_eq h)]
+  · simp [V4.packedToInt, unpackFields, h, bind, Except.bind]
+
+theorem v6_packedToInt_spec (bs : List Nat) (hb : ∀ b ∈ bs, b < 256) :
+    (bs.length = 16 → V6.packedToInt bs = .ok (beValue bs)) ∧ (bs.length ≠ 16 → V6.packedToInt bs = .error .other) := by
+  constructor <;> intro h
+  · have := unpack_orShift 4 4 bs h hb
+    simp only [V6.packedToInt, unpackFields, h]
+    simp only [bind, Except.bind, pure, Except.pure]
+    simpa using this
+  · simp [V6.packedToInt, unpackFields, h, bind, Except.bind]
+
+theorem e48_packedToInt_spec (bs : List Nat) (hb : ∀ b ∈ bs, b < 256) :
+    (bs.length = 6 → E48.packedToInt bs = .ok (beValue bs)) ∧ (bs.length ≠ 6 → E48.packedToInt bs = .error .other) := by
+  constructor <;> intro h
+  · have := unpack_orShift 1 6 bs (by omega) hb
+    simp only [E48.packedToInt, unpackFields, h]
+    simp only [bind, Except.bind, pure, Except.pure]
+    simpa using this
+  · simp [E48.packedToInt, unpackFields, h, bind, Except.bind]
+
+theorem e64_packedToInt_spec (bs : List Nat) (hb : ∀ b ∈ bs, b < 256) :
+    (bs.length = 8 → E64.packedToInt bs = .ok (beValue bs)) ∧ (bs.length ≠ 8 → E64.packedToInt bs = .error .other) := by
+  constructor <;> intro h
+  · have := unpack_orShift 1 8 bs (by omega) hb
+    simp only [E64.packedToInt, unpackFields, h]
+    simp only [bind, Except.bind, pure, Except.pure]
+    simpa using this
+  · simp [E64.packedToInt, unpackFields, h, bind, Except.bind]
+
+example : E48.packedToInt [0x00, 0x1b, 0x77, 0x49, 0x54, 0xfd] = .ok 0x001b774954fd := by rfl
+example : E48.packedToInt [0x00, 0x1b, 0x77, 0x49, 0x54] = .error .other := by rfl
+
+/-- decoder ∘ encoder = id on packed strings, all four families -/
+theorem packed_roundtrip (v : Nat) :
+    (v < 2 ^ 32 → ∃ p, V4.intToPacked v = .ok p ∧ V4.packedToInt p = .ok v) ∧
+    (v < 2 ^ 128 → ∃ p, V6.intToPacked v = .ok p ∧ V6.packedToInt p = .ok v) ∧
+    (v < 2 ^ 48 → ∃ p, E48.intToPacked v = .ok p ∧ E48.packedToInt p = .ok v) ∧
+    (v < 2 ^ 64 → ∃ p, E64.intToPacked v = .ok p ∧ E64.packedToInt p = .ok v) := by
+  refine ⟨fun h => ⟨_, (v4_intToPacked_spec v).1 h, ?_⟩, fun h => ⟨_, (v6_intToPacked_spec v).1 h, ?_⟩,
+    fun h => ⟨_, (e48_intToPacked_spec v).1 h, ?_⟩, fun h => ⟨_, (e64_intToPacked_spec v).1 h, ?_⟩⟩
+  · rw [(v4_packedToInt_spec _).1 (beBytes_length 4 v), (beBytes_shape 4 v h).2.2]
+  · rw [(v6_packedToInt_spec _ (beBytes_lt 16 v)).1 (beBytes_length 16 v), (beBytes_shape 16 v h).2.2]
+  · rw [(e48_packedToInt_spec _ (beBytes_lt 6 v)).1 (beBytes_length 6 v), (beBytes_shape 6 v h).2.2]
+  · rw [(e64_packedToInt_spec _ (beBytes_lt 8 v)).1 (beBytes_length 8 v), (beBytes_shape 8 v h).2.2]
 
 end NV.C15
